@@ -136,6 +136,7 @@ void checkL3(const plan::Plan& p, const RunData& rd, hz::RunResult* res) {
   std::string family = c.get("family");
   uint64_t judged = 0;
   std::vector<const CmdRecord*> deferred;
+  std::vector<const CmdRecord*> variantCmds;
   std::map<std::string, std::map<std::string, const CmdRecord*>> composeParts;
   for (const CmdRecord& r : rd.cmds) {
     // every command that was sent completely gets exactly one response
@@ -187,6 +188,9 @@ void checkL3(const plan::Plan& p, const RunData& rd, hz::RunResult* res) {
       composeParts[std::to_string(r.client) + "/" + r.line.get("group")][r.line.get("part")] = &r;
     } else if (r.tag == "read" || r.tag == "write" || r.tag == "writechain" || r.tag == "acl" || r.tag == "auth" || r.tag == "httpdata") {
       deferred.push_back(&r);
+      if (r.tag == "auth") variantCmds.push_back(&r);
+    } else if (r.tag == "variant") {
+      variantCmds.push_back(&r);
     } else if (r.tag == "http") {
       judged++;
       // first line: GET <uri> HTTP/1.1
@@ -601,6 +605,85 @@ void checkL3(const plan::Plan& p, const RunData& rd, hz::RunResult* res) {
             snprintf(buf2, sizeof(buf2), "message %s (level %s) was sent at %.1f ms outside any granted request", m.name.c_str(), m.level.c_str(), e->t / 1e6);
             res->violate("C16", "level-not-enforced", "polled-without-grant", buf2);
             break;
+          }
+        }
+      }
+    }
+  }
+  // ---- C16: conditional variants of one circuit/name with different levels (family c16v) ----
+  // Two definitions "heat temp": the open one (field vopen, ID 0d0100) and the protected one (field vprot, ID 0d0200, level L);
+  // the referenced message heat/variant decides which one is available. The field name in verbose output tells them apart.
+  {
+    const plan::Line* vl = nullptr;
+    for (auto& l : p.lines) if (l.kind == "variant") vl = &l;
+    if (vl && !variantCmds.empty()) {
+      std::string level = vl->get("level");
+      bool protActive = vl->get("active") == "prot";
+      uint8_t vsb = static_cast<uint8_t>(vl->num("sb"));
+      std::map<std::string, std::pair<std::string, std::string>> users;
+      std::string defaultLevels;
+      for (auto& l : p.lines) if (l.kind == "user") {
+        std::string lv = l.get("levels") == "-" ? "" : l.get("levels");
+        if (l.get("name") == "*") defaultLevels = lv; else users[l.get("name")] = std::make_pair(l.get("secret"), lv);
+      }
+      auto levelsOf = [&](const std::string& user) { return user.empty() || !users.count(user) ? defaultLevels : users[user].second; };
+      auto protExchanges = [&](int64_t from, int64_t to) {
+        int n = 0;
+        for (const Exchange& e : rd.exchanges) if (e.t >= from && e.t <= to && e.master.size() == 8 && e.master[1] == 0x08 && e.master[2] == 0xb5 && e.master[3] == vsb && e.master[5] == 0x0d && e.master[6] == 0x02 && e.master[7] == 0x00) n++;
+        return n;
+      };
+      std::map<int, std::string> sessionUser;
+      std::map<int, bool> refKnown, listening;    // the client itself read heat/variant successfully before
+      struct GW { int64_t from, to; };
+      std::vector<GW> grantedForce;
+      std::map<const CmdRecord*, bool> gOf;
+      for (const CmdRecord* r : variantCmds) {
+        if (r->tag == "auth") { std::string u = r->line.get("user"); if (users.count(u) && users[u].first == r->line.get("secret") && r->response == "done") sessionUser[r->client] = u; continue; }
+        bool g;
+        if (r->line.get("kind") == "http") {
+          std::string u = r->line.get("user") == "-" ? "" : r->line.get("user"), sec = r->line.get("secret") == "-" ? "" : r->line.get("secret");
+          bool credsOk = users.count(u) && users[u].first == sec;
+          g = (u.empty() || credsOk) && granted(level, levelsOf(credsOk ? u : ""));
+        } else {
+          g = granted(level, levelsOf(sessionUser.count(r->client) ? sessionUser[r->client] : ""));
+        }
+        gOf[r] = g;
+        if (g && r->line.get("kind") == "readforce") grantedForce.push_back(GW{r->sentT, r->doneT < 0 ? rd.endT : r->doneT});
+      }
+      for (const CmdRecord* r : variantCmds) {
+        if (r->tag == "auth") continue;
+        std::string kind = r->line.get("kind");
+        bool g = gOf[r];
+        int64_t to = r->doneT < 0 ? rd.endT : r->doneT;
+        char buf[700];
+        judged++;
+        std::string seen = r->response;
+        if (kind == "listen") { listening[r->client] = true; auto it = rd.rxAll.find(r->client); seen = it == rd.rxAll.end() ? "" : it->second; }
+        bool showsProt = seen.find("vprot") != std::string::npos, showsOpen = seen.find("vopen") != std::string::npos;
+        if (kind == "refread") { if (r->response.compare(0, 4, "ERR:") != 0) refKnown[r->client] = true; continue; }
+        if (!g && showsProt) {
+          snprintf(buf, sizeof(buf), "client %d [%s] is not granted level %s but was shown the protected variant: [%s]", r->client, r->request.substr(0, 80).c_str(), level.c_str(), seen.substr(0, 300).c_str());
+          res->violate("C16", "level-not-enforced", "conditional-variant " + kind, buf);
+          continue;
+        }
+        if (!g && kind == "readforce") {
+          bool other = false;
+          for (auto& w : grantedForce) if (w.from <= to && w.to >= r->sentT) other = true;
+          if (!other && protExchanges(r->sentT, to) > 0) {
+            snprintf(buf, sizeof(buf), "client %d [%s] is not granted level %s but the telegram of the protected variant was sent while it was served", r->client, r->request.c_str(), level.c_str());
+            res->violate("C16", "level-not-enforced", "telegram-sent conditional-variant", buf);
+            continue;
+          }
+        }
+        // the other direction: once the client itself has read the referenced value, a forced read shows the variant that
+        // is available to it (the open one needs no level at all)
+        if (kind == "readforce" && refKnown[r->client]) {
+          bool wantProt = protActive && g, wantOpen = !protActive;
+          bool notFound = r->response.compare(0, 22, "ERR: element not found") == 0;
+          if ((wantProt && (notFound || showsOpen)) || (wantOpen && (notFound || showsProt))) {
+            snprintf(buf, sizeof(buf), "client %d [%s] (level %s %s, %s variant active, referenced value known) was answered [%s]", r->client, r->request.c_str(), level.c_str(), g ? "granted" : "not granted",
+                     protActive ? "protected" : "open", r->response.substr(0, 120).c_str());
+            res->violate("C16", "granted-access-denied", "conditional-variant " + kind, buf);
           }
         }
       }
